@@ -110,7 +110,10 @@ class TCPServer:
     async def _read_data(self) -> None:
         while True:
             try:
-                data = await asyncio.wait_for(self.reader.read(MAX_RECV), self.config.read_timeout)
+                # A zero read timeout means none (as it does for the trio worker)
+                data = await asyncio.wait_for(
+                    self.reader.read(MAX_RECV), self.config.read_timeout or None
+                )
             except (
                 ConnectionError,
                 OSError,
